@@ -56,7 +56,7 @@ type Sched struct {
 	Classify func(stack string) string
 	nameSeq  map[string]int
 	ignore   map[int]bool // goroutines that existed before this scheduler (leftovers of abandoned scenarios)
-	Dead     bool // set when the scenario is abandoned: late yields pass through
+	Dead     bool         // set when the scenario is abandoned: late yields pass through
 }
 
 // New creates a scheduler.
@@ -362,4 +362,11 @@ func (s *Sched) WaitFor(names ...string) error {
 		}
 		time.Sleep(50 * time.Microsecond)
 	}
+}
+
+// NameOf returns the registered name of a goroutine ("" if unknown).
+func (s *Sched) NameOf(gid int) string {
+	s.mu.Lock()
+	defer s.mu.Unlock()
+	return s.names[gid]
 }
